@@ -630,6 +630,38 @@ func (w *c01World) quotas(c *kernel.RunCtx) {
 	}
 	c.Count("probe.big_field_ends_stream_with_eof", 1)
 	{
+		// built through the API, not signed yet (nil unlocking scripts), more than a MiB of script data: id and bytes
+		// against the reference encoding
+		big := make([]byte, (1<<20)+n)
+		for i := range big {
+			big[i] = byte(i * 7)
+		}
+		m := &models.RTx{Version: 1, Lock: 9,
+			Ins:  []models.RIn{{Vout: 1, Seq: 0xffffffff, PrevSats: 7, PrevScript: p2pkh(make([]byte, 20))}, {Vout: 2, Seq: 5, PrevSats: 8, PrevScript: p2pkh(make([]byte, 20))}},
+			Outs: []models.ROut{{Sats: 0, Script: append([]byte{0x00, 0x6a}, big...)}, {Sats: 3, Script: p2pkh(make([]byte, 20))}}}
+		tx := bt.NewTx()
+		tx.Version, tx.LockTime = m.Version, m.Lock
+		okBuilt := true
+		for i := range m.Ins {
+			mi := &m.Ins[i]
+			if err := tx.FromUTXOs(&bt.UTXO{TxID: make([]byte, 32), Vout: mi.Vout, Satoshis: mi.PrevSats, LockingScript: scriptPtr(mi.PrevScript)}); err != nil || len(tx.Inputs) != i+1 {
+				okBuilt = false
+				break
+			}
+			tx.Inputs[i].SequenceNumber = mi.Seq
+		}
+		if okBuilt {
+			for _, o := range m.Outs {
+				tx.AddOutput(&bt.Output{Satoshis: o.Sats, LockingScript: scriptPtr(o.Script)})
+			}
+			c.Exec()
+			if !reserialiseCheck(c, tx, m, true, "API-built unsigned transaction with more than a MiB of script data") {
+				return
+			}
+			c.Count("probe.big_unsigned_api_built_tx", 1)
+		}
+	}
+	{
 		// verifying an input whose spent script has an OP_CODESEPARATOR in front of its CHECKSIG (the signature is
 		// rubbish; the verdict does not matter): the transaction must be what it was
 		lock := append([]byte{0x61, 0xab, 0x21}, make([]byte, 33)...)
